@@ -316,6 +316,15 @@ func (in *poolInst) apply(op string) (ok bool, viol [][2]string) {
 		}
 		in.commit([]string{n})
 		m.tainted[t.acct] = true
+	case "commitheld": // commitheld <acct>: a block built by ANOTHER leader carries the transaction this pool
+		// holds ready (not batched here) at the account's committed nonce - the normal case on a follower
+		acct := poolTxs[f[1]+"0"].acct
+		n := m.ledger[acct]
+		name, ok := m.held[acct][n]
+		if !ok || n >= m.pend(acct) || m.batched[fmt.Sprintf("%s/%d", acct, n)] {
+			return false, nil
+		}
+		in.commit([]string{name})
 	case "tick":
 		d, _ := strconv.ParseInt(f[1], 10, 64)
 		in.now += d
@@ -590,7 +599,7 @@ var poolAlphabet = []string{
 	"recv follower local A0", "recv follower local A1", "recv follower remote A2", "recv follower local B0", "recv follower local B1",
 	"recv follower local A1x", "recv follower local A0x", "recv follower local A1,A0", "recv follower local A2,A2x",
 	"gen", "commit 0", "commit 1", "commit 0 rev", "commit 0 part", "commitforeign A0x", "commitforeign B0x",
-	"tick 100", "evict 50", "restart", "recv leader local A0,B0",
+	"tick 100", "evict 50", "restart", "recv leader local A0,B0", "commitheld A", "commitheld B",
 }
 
 var poolAlphabetMore = []string{"recv follower local A3", "recv follower local A2x", "recv follower local B0x", "setseq 7", "recv leader remote A1,A2", "commitforeign A1x", "evict 150"}
@@ -613,7 +622,7 @@ func C18(c *mc.Ctx) {
 	}
 	// timed mode: blocks are cut by GenerateBlock only; longer histories over a small alphabet
 	runPool(c, "C18", c18Oracle, poolCfg{2, 0, true}, "poolmc-timed-batch2", poolAlphabetTimed, 9)
-	c.Set("rule", "BFS over mempool operation sequences (receive as leader/follower, local/remote, slices with out-of-order, duplicate-nonce and conflicting transactions; generate; commit of batch i in order / reversed / partial; commit of a block built elsewhere; clock ticks; age-based eviction; restart reloading ledger nonces; sequence reset) on the real pool with batch size 1, 2, 3; every returned batch is checked against the reference model (consecutive nonces from committed/last batched, not twice, the held object, not below the ledger nonce, size, sequence)")
+	c.Set("rule", "BFS over mempool operation sequences (receive as leader/follower, local/remote, slices with out-of-order, duplicate-nonce and conflicting transactions; generate; commit of batch i in order / reversed / partial; commit of a block built elsewhere (from transactions this pool never saw, or from the ready transaction it holds but has not batched itself); clock ticks; age-based eviction; restart reloading ledger nonces; sequence reset) on the real pool with batch size 1, 2, 3; every returned batch is checked against the reference model (consecutive nonces from committed/last batched, not twice, the held object, not below the ledger nonce, size, sequence)")
 	c.Assume("two accounts, nonces 0..3, one conflicting transaction per (account, nonce); virtual clock through a source rewrite of time.Now() in the pool's files")
 	if c.Get("states_with_uncommitted_batches") == 0 {
 		c.HarnessError("vacuous: no batch ever generated")
